@@ -49,7 +49,7 @@ var (
 	reInv    = regexp.MustCompile(`Invariant (\S+) is violated`)
 	reAct    = regexp.MustCompile(`Action property (\S+) is violated`)
 	rePost   = regexp.MustCompile(`Postcondition (\S+)? ?.*is false|The postcondition .* is false`)
-	reTemp   = regexp.MustCompile(`Temporal properties were violated`)
+	reTemp   = regexp.MustCompile(`Temporal properties were violated|Temporal property \S+ was violated`)
 	reSimGen = regexp.MustCompile(`(\d+) states checked`)
 )
 
